@@ -19,7 +19,7 @@ def corpus():
         fams = (witness.family_parse_total, witness.family_parse_numbers, witness.family_options, witness.family_numbers, witness.family_refusal,
                 witness.family_hostile, witness.family_table, witness.family_panics, witness.family_long, witness.family_ast, witness.family_perm,
                 witness.family_grammar, witness.family_parse_refusal, witness.family_queries, witness.family_units, witness.family_noninterference,
-                witness.family_structure, witness.family_matchers, witness.family_wrap_body)
+                witness.family_structure, witness.family_matchers, witness.family_wrap_body, witness.family_ast_wrap, witness.family_ast_table, witness.family_determinism)
         for fam in fams:
             for c in fam():
                 for op_, inp_ in [(c['op'], c['input'])] + ([c['also']] if c.get('also') else []) + list(c.get('also3', ())):
